@@ -285,7 +285,8 @@ pub fn configs(prop: &str, thorough: bool) -> Vec<(Cfg, Option<usize>)> {
                 c.voters = vec![(0, 1), (1, 1), (2, 0)];
                 c.th = Th::Count(cnt);
                 c.max_props = 1;
-                c.kinds = vec![PK::TagTwice];
+                // (where the period is height-based and two votes are needed: also a proposal of 31 messages, more than a page of any listing)
+                c.kinds = if per == Per::H(2) && cnt == 2 { vec![PK::TagTwice, PK::Tag31] } else { vec![PK::TagTwice] };
                 c.votes = vec![VoteA::Yes, VoteA::No];
                 c.proposers = vec![0];
                 c.voters_acting = vec![1];
